@@ -40,7 +40,7 @@ func getConstants(seed string, nRounds int) []*ff.Element {
 	cts[0] = ff.NewElement()
 	c := new(big.Int).SetBytes(keccak256.Hash([]byte(seed)))
 	for i := 1; i < nRounds; i++ {
-		c = new(big.Int).SetBytes(keccak256.Hash(c.Bytes()))
+		c = new(big.Int).SetBytes(keccak256.Hash(c.FillBytes(make([]byte, 32)))) //nolint:gomnd
 
 		n := new(big.Int).Mod(c, _constants.Q)
 		cts[i] = ff.NewElement().SetBigInt(n)
